@@ -46,13 +46,13 @@ def poller_model(ctx):
     as the handler's two steps, one sync per keyspace that may fail or be given up by the progress watcher while its modification half is
     left to run, what the tracker remembers).  TLC checks that the tracker never
     says 'unchanged' while something is missing; the unsound variations of the module must be told apart."""
-    consts = dict(Keyspaces={'"a"', '"b"'}, MaxMut=4, MaxRounds=3 if ctx.tier == "quick" else 4, StampLast=False, RememberPolled=False, RememberAll=False, RememberTimedOut=False)
+    consts = dict(Keyspaces={'"a"', '"b"'}, MaxMut=4, MaxRounds=3 if ctx.tier == "quick" else 4, StampLast=False, RememberPolled=False, RememberAll=False, RememberTimedOut=False, RememberPartial=False)
     cfg = vlib.cfg_text(constants=consts, invariants=["TrackerSound", "TrackerBehind"])
     mc, text = vlib.run_tlc(ctx, "Poller", cfg, "mc_poller", workers=4, timeout=1800)
     if not vlib.require_clean_mc(ctx, mc, text, "Poller"):
         raise vlib.ToolError("Poller.tla violates %s: specification error" % mc["violated"])
     told_apart = []
-    for var in ("StampLast", "RememberAll", "RememberTimedOut"):
+    for var in ("StampLast", "RememberAll", "RememberTimedOut", "RememberPartial"):
         c2 = vlib.cfg_text(constants=dict(consts, **{var: True}), invariants=["TrackerSound"])
         r2, _ = vlib.run_tlc(ctx, "Poller", c2, "mc_poller_" + var, workers=4, timeout=1800)
         if "TrackerSound" not in r2["violated"]:
